@@ -143,11 +143,11 @@ TRUE, FALSE = BoolVal(True), BoolVal(False)
 
 
 def Int(name, lo=None, hi=None):
-    t = mk('var', (name,), INT)
-    if lo is not None:
-        t.lo = lo
-    if hi is not None:
-        t.hi = hi
+    # the declared bounds are part of the identity: names are reused across paths (per-path counters), and derived
+    # terms cache interval bounds, so a variable re-declared with other bounds must be a different term
+    t = mk('var', (name, lo, hi), INT)
+    t.lo = lo
+    t.hi = hi
     return t
 
 
